@@ -83,7 +83,7 @@ def gen_range(rng, p, scale, kind=None):
 
 INT_FORMS = ("ilist", "i64", "i32", "u16", "i8", "u8", "i16")
 NARROW_TOP = {"i8": (60, 100, 127), "u8": (150, 200, 255), "i16": (16000, 16040, 32767), "u16": (32000, 32040, 60000)}
-FLOAT_FORMS = ("f64", "f64", "list", "f32")
+FLOAT_FORMS = ("f64", "f64", "list", "f32", "fortran", "colsT")
 
 
 def gen_fit_data(rng, p, scale):
@@ -174,6 +174,10 @@ def materialize_fit(d):
             atol = max(atol, 2.5e-7 * float(np.abs(a).max()))
         elif f == "list":
             g = a.tolist()
+        elif f == "fortran":
+            g = np.asfortranarray(a)
+        elif f == "colsT":
+            g = np.vstack((a[:, 0], a[:, 1])).T          # a (2, n) array seen as (n, 2): Fortran-ordered view
         elif f == "f64":
             g = a
         else:
@@ -227,7 +231,7 @@ def gen_case(rng, tier):
                 # other data with the same extremes (same bounding box, different interior points)
                 import copy as _copy
                 d_ = _copy.deepcopy(rng.choice(earlier))
-                if rng.random() < 0.5 and all(f in ("f64", "list") for f in d_["forms"]):
+                if rng.random() < 0.5 and all(f in ("f64", "list", "fortran", "colsT") for f in d_["forms"]):
                     flat_ = [q for x in d_["dgms"] for q in x]
                     lo_b, hi_b = min(q[0] for q in flat_), max(q[0] for q in flat_)
                     lo_p, hi_p = min(q[1] - q[0] for q in flat_), max(q[1] - q[0] for q in flat_)
